@@ -284,24 +284,47 @@ def run_r14(run):
     check_uq_interp_forms(run)
     check_trinterp_tables(run)
     check_routes(run, ROUTES_C11, rule='R14')
-    # routing by dimension in SMPose.interp
+    # routing by dimension in SMPose.interp: every reference to an interpolator (a call, or the function taken as a value) lies
+    # under the matching N test
     f = run.prog.func('super_pose:SMPose.interp')
     fi = FuncInfo.of(f)
     cfg = CFG(f.node)
     facts = must_facts(cfg)
+    reach = cfg.reachable()
+    from ..cfg import header_expr
     ok2 = ok3 = False
-    for r in own_returns(f.node):
-        node = cfg.node_of(r)
-        fs = facts.get(node.id, frozenset()) if node else frozenset()
-        txt = ast.unparse(r.value) if r.value is not None else ''
+    for node in cfg.nodes:
+        if node.id not in reach:
+            continue
+        fs = facts.get(node.id, frozenset())
         n2 = any(fc[1] and matches('self.N == 2', fc[2].ast) is not None for fc in fs)
         n3 = any(fc[1] and matches('self.N == 3', fc[2].ast) is not None for fc in fs) or \
             any((not fc[1]) and matches('self.N == 2', fc[2].ast) is not None for fc in fs)
-        if 'trinterp2' in txt and n2:
-            ok2 = True
-        if 'trinterp(' in txt and n3:
-            ok3 = True
-        if ('trinterp2' in txt and not n2) or ('base.trinterp(' in txt and n2):
-            run.violation(RULE, f.key, 'dimension routing', 'a %s-D interpolator is called on the N == %s branch' % ('2' if 'trinterp2' in txt else '3', '3' if 'trinterp2' in txt else '2'), f=f, node=r)
-    (run.holds if ok2 and ok3 else run.violation)(RULE, f.key, 'dimension routing', 'N == 2 -> trinterp2, N == 3 -> trinterp' if ok2 and ok3 else
-                                                  'interp does not route N == 2 to trinterp2 and N == 3 to trinterp', f=f)
+        for h in header_expr(node):
+            if h is None:
+                continue
+            for x in ast.walk(h):
+                if not isinstance(x, (ast.Name, ast.Attribute)):
+                    continue
+                nm = x.attr if isinstance(x, ast.Attribute) else x.id
+                if nm not in ('trinterp', 'trinterp2'):
+                    continue
+                t = fi.resolve(x)
+                if getattr(t, 'kind', None) != 'func':
+                    continue
+                if nm == 'trinterp2':
+                    if n2:
+                        ok2 = True
+                    else:
+                        run.violation(RULE, f.key, 'dimension routing', 'the 2-D interpolator trinterp2 is used where N == 2 is not established'
+                                      + (' (N == 3 branch)' if n3 else ''), f=f, node=x)
+                else:
+                    if n3:
+                        ok3 = True
+                    else:
+                        run.violation(RULE, f.key, 'dimension routing', 'the 3-D interpolator trinterp is used where N == 3 is not established'
+                                      + (' (N == 2 branch)' if n2 else ''), f=f, node=x)
+    if ok2 and ok3:
+        run.holds(RULE, f.key, 'dimension routing', 'N == 2 -> trinterp2, N == 3 -> trinterp', f=f)
+    else:
+        run.error('R14: SMPose.interp: no reference to %s found under its N test' % ' / '.join(n for n, o in (('trinterp2', ok2), ('trinterp', ok3)) if not o))
